@@ -225,7 +225,7 @@ def write_replay(prop: str, payload: dict) -> str:
 
 def write_evidence(prop: str, tier: str, seed: int, st: BuildStatus, rep: Report, wall: float,
                    violations: int, checker_cmd: str, extra_assumptions: list[str] | None = None,
-                   level: str = "proof"):
+                   level: str = "proof", known_hits: int = 0, known_ids: list | None = None):
     os.makedirs(os.path.join(VERIF, "evidence"), exist_ok=True)
     cov = {
         "obligations": max(1, len(st.theorems)),
@@ -242,7 +242,9 @@ def write_evidence(prop: str, tier: str, seed: int, st: BuildStatus, rep: Report
         "samples": rep.samples[:8],
         "histogram": rep.histogram,
         "correspondence_mismatches": len(rep.corr_mismatches),
-        "oracle_failures": len(rep.oracle_failures),
+        "oracle_failures": len(rep.oracle_failures) - known_hits,
+        "known_finding_hits": known_hits,
+        "known_findings_met": known_ids or [],
         "skipped": rep.skipped,
         "notes": rep.notes,
         "exhaustive": rep.exhaustive,
